@@ -183,8 +183,33 @@ BASE_CFGS = [
 ]
 
 
+def scale_trees():
+    """Larger outputs: more (cpu, level) blocks, two-digit cpu numbers and deeper levels than the enumerated families."""
+    import itertools
+
+    l1 = [(1, c) for c in itertools.product(range(2), repeat=3)]
+    l2c = list(itertools.product(range(4), repeat=3))[::3][:17]
+    l2 = [(2, c) for c in l2c]
+    l3 = [(3, tuple(2 * x + (i % 2) for x in c)) for i, c in enumerate(l2c)]
+    big3 = M1.Tree(3, 4, l1 + l2 + l3)
+    chain = [(1, (1, 0))]
+    c = (1, 0)
+    for lev in range(2, 8):
+        c = (2 * c[0] + (lev % 2), 2 * c[1] + 1)
+        chain.append((lev, c))
+    deep2 = M1.Tree(2, 8, chain)
+    r1 = [(1, (0,)), (1, (1,))] + [(2, (i,)) for i in range(4)] + [(3, (i,)) for i in range(8)] + [(4, (i,)) for i in range(0, 16, 2)] + [(5, (i,)) for i in range(0, 32, 4)]
+    wide1 = M1.Tree(1, 6, r1)
+    return [("3d-L4-42-blocks", big3, 17), ("2d-L8-chain", deep2, 11), ("1d-L6-wide", wide1, 13)]
+
+
 def cases(thorough, seed):
     fams = tree_families(thorough, seed)
+    base0 = {k: v[0] for k, v in SPACE.items()}
+    # block S: scale (many cpus / blocks / levels) x a few configurations
+    for label, t, ncpu in scale_trees():
+        for extra in ({}, {"ghosts": "first", "grav": True}, {"owners": "bylevel", "ghosts": "last", "bnd": "x2"}):
+            yield ("S:" + label, t, dict(base0, ncpu=ncpu, **extra))
     base = {k: v[0] for k, v in SPACE.items()}
     # block A: every tree x 3 fixed configurations
     for label, trees in fams:
